@@ -173,3 +173,127 @@ def run(run, P, only=None):
         run.oblige('R-STALE-COPY', True, '%s:analysed' % name)
     run.stats['stalecopy_freeable_fields'] = len(FR)
     return ncopy
+
+
+# ---------------------------------------------------------------------------------------------------------------
+def run_scalar(run, P, fields=(('coap_pdu_t', 'max_opt'),), units=('coap_pdu.c', 'coap_option.c'), rule='R-FIXUP'):
+    """stale copy of a running codec field: pdu->max_opt is the number of the last option in the buffer and every delta is computed
+    against it.  A local copy of it taken before a call that can append / insert an option to the same PDU (call closure contains a
+    writer of that field, and the PDU is an argument) no longer is "the last option number": using it afterwards encodes the delta
+    against the wrong base and shifts every later option number on the wire."""
+    run.rule(rule)
+    fields = set(fields)
+    writers = collections.defaultdict(set)
+    for f in P.lib_funcs():
+        for b, ev in P.events(f):
+            t = ev['e']
+            l = None
+            if t.get('k') == 'asg':
+                l = strip(t['l'])
+            elif t.get('k') == 'un' and t.get('op') in ('++', '--'):
+                l = strip(t['e'])
+            if isinstance(l, dict) and l.get('k') == 'mem' and (l.get('rec'), l.get('f')) in fields:
+                writers[(l['rec'], l['f'])].add(f['name'])
+    cg = P.callgraph()
+    closure = {}
+    for rf, ws in writers.items():
+        r = set(ws)
+        ch = True
+        while ch:
+            ch = False
+            for fn, cs in cg.items():
+                if fn not in r and any(c in r for c in cs):
+                    r.add(fn)
+                    ch = True
+        closure[rf] = r
+    n = 0
+    for f in sorted(P.lib_funcs(), key=lambda f: f['name']):
+        if f['unit'] not in units:
+            continue
+        name = f['name']
+        copies = {}
+        for b, ev in P.events(f):
+            t = ev['e']
+            pairs = []
+            if t.get('k') == 'asg' and t.get('op') == '=':
+                pairs.append((ap(t['l']), t['r']))
+            elif t.get('k') == 'decl':
+                for d in t['d']:
+                    if 'init' in d:
+                        pairs.append(('v%d' % d['id'], d['init']))
+            for l, r in pairs:
+                r0 = strip(r)
+                if l and '.' not in l and '>' not in l and isinstance(r0, dict) and r0.get('k') == 'mem' and (r0.get('rec'), r0.get('f')) in fields:
+                    copies.setdefault(l, set()).add(((r0['rec'], r0['f']), ap(r0['b'])))
+        if not copies:
+            continue
+        n += len(copies)
+        run.instance(rule, '%s: local copy of %s' % (name, ', '.join(sorted('%s.%s' % rf for c in copies.values() for rf, _b in c))))
+
+        def reads(t, l):
+            skip = strip(t['l']) if t.get('k') == 'asg' and t.get('op') == '=' else None
+            for x in walk(t):
+                if isinstance(x, dict) and x.get('k') == 'var' and ap(x) == l and x is not skip:
+                    return True
+            return False
+
+        def is_rule_event(ev):
+            t = ev['e']
+            if not ev.get('top') and t.get('k') not in ('call', 'decl'):
+                return False
+            if t.get('k') == 'call':
+                return True
+            return any(reads(t, l) for l in copies) or (t.get('k') in ('asg', 'decl'))
+        keys, R = relevance(f, is_rule_event, set(copies))
+        for b in f['blocks']:
+            c = (b.get('term') or {}).get('cond')
+            if c is not None and any(ap(x) in copies for x in walk(c) if isinstance(x, dict)):
+                keys = set(keys) | {b['id']}
+
+        def on_event(ev, env, ctx):
+            t = ev['e']
+            st = dict(env.ts.get('c', ()))
+            if t.get('k') == 'call':
+                fn = t.get('fn')
+                argaps = set(ap(a) for a in t.get('a', []))
+                ch = False
+                for l, v in list(st.items()):
+                    if v and v[0] == 'copy' and fn in closure.get(v[1], ()) and v[2] in argaps:
+                        st[l] = ('stale', v[1], v[2], fn)
+                        ch = True
+                if ch:
+                    e = apply_generic(ev, env, R).copy()
+                    e.ts['c'] = tuple(sorted((k2, v) for k2, v in st.items() if v))
+                    return [e]
+                return None
+            if not ev.get('top') and t.get('k') != 'decl':
+                return None
+            # uses
+            for l, v in list(st.items()):
+                if v and v[0] == 'stale' and reads(t, l):
+                    run.oblige(rule, False, '%s:stale-scalar:%s' % (name, l))
+                    run.violation(rule, name, ev['loc'], 'stale-field-copy:%s.%s' % v[1],
+                                  'the local copy of %s.%s taken before %s() (which can change that field of the same object) is used afterwards (%s): the value is no longer the '
+                                  'running base the codec computes against' % (v[1][0], v[1][1], v[3], short(t)[:60]), ctx.path())
+                    st[l] = None
+            # (re)definitions
+            pairs = []
+            if t.get('k') == 'asg' and t.get('op') == '=':
+                pairs.append((ap(t['l']), t['r']))
+            elif t.get('k') == 'decl':
+                for d in t['d']:
+                    if 'init' in d:
+                        pairs.append(('v%d' % d['id'], d['init']))
+            for l, r in pairs:
+                if l in copies:
+                    r0 = strip(r)
+                    if isinstance(r0, dict) and r0.get('k') == 'mem' and (r0.get('rec'), r0.get('f')) in fields:
+                        st[l] = ('copy', (r0['rec'], r0['f']), ap(r0['b']))
+                    else:
+                        st[l] = None
+            e = apply_generic(ev, env, R).copy()
+            e.ts['c'] = tuple(sorted((k2, v) for k2, v in st.items() if v))
+            return [e]
+        solve(f, Env({'c': ()}), on_event, None, keys, R, key_fn=lambda e: e.ts.get('c'), max_envs=512)
+        run.oblige(rule, True, '%s:scalar-analysed' % name)
+    return n
